@@ -72,7 +72,16 @@ class Contract(object):
         self.callsites = dict(callsites or {})  # unparsed callee expr -> contract id
         self.exprs = dict(exprs or {})          # unparsed expr -> override spec
         self.result = result                    # type string of the result
-        self.props = list(props or [])          # property ids served
+        # property ids served; "C09:label1,label2" serves C09 with these postcondition clauses only (all other
+        # obligation kinds -- invariants, frames, safety -- are always included)
+        self.props, self.prop_clauses = [], {}
+        for p_ in (props or []):
+            if ":" in p_:
+                pid, labels = p_.split(":", 1)
+                self.props.append(pid)
+                self.prop_clauses[pid] = set(x.strip() for x in labels.split(","))
+            else:
+                self.props.append(p_)
         self.lookup_raises = lookup_raises
         self.assert_raises = assert_raises
         self.locals = dict(locals or {})
